@@ -281,6 +281,11 @@ class MuxSocketTransportSink(ClientMessageSink):
         payload, dct = self._send_queue.get()
         queue_len = self._send_queue.qsize()
         self._varz.send_queue_size(queue_len)
+        if dct.get(Tag.KEY, 0) is None:
+          # The message was already completed (and its tag returned to the pool)
+          # while it waited in the send queue; the tag may have been leased again,
+          # so the message must not be written.
+          continue
         # HandleTimeout sets up the transport level timeout handling
         # for this message.  If the message times out in transit, this
         # transport will handle sending a Tdiscarded to the server.
